@@ -11,7 +11,8 @@ IMMUTABLE = (int, float, complex, str, bytes, bool, type(None), type,
              types.MethodType, range, frozenset)
 
 
-def deep_eq(a: Any, b: Any, path: str = '', seen=None) -> str | None:
+def deep_eq(a: Any, b: Any, path: str = '', seen=None,
+            eq_types: tuple = ()) -> str | None:
     """None when `a` and `b` agree field by field (recursively), else the path
     of the first difference.  Functions compare by qualified name or code."""
     if seen is None:
@@ -24,6 +25,14 @@ def deep_eq(a: Any, b: Any, path: str = '', seen=None) -> str | None:
         return None
     if type(a) is not type(b):
         return f'{path}: type {type(a).__name__} != {type(b).__name__}'
+    if eq_types and isinstance(a, eq_types):
+        # values with their own equality (gates: a CircuitGate's inner
+        # parameters are a cache, not part of its identity)
+        try:
+            ok = (a == b) and (b == a) and hash(a) == hash(b)
+        except TypeError:
+            ok = (a == b) and (b == a)
+        return None if ok else f'{path}: {a!r} != {b!r} (==/hash)'
     if isinstance(a, np.ndarray):
         if a.shape != b.shape or a.dtype != b.dtype:
             return f'{path}: array shape/dtype'
@@ -43,14 +52,14 @@ def deep_eq(a: Any, b: Any, path: str = '', seen=None) -> str | None:
             return f'{path}: function code'
         ca = [c.cell_contents for c in (a.__closure__ or ())]
         cb = [c.cell_contents for c in (b.__closure__ or ())]
-        return deep_eq(ca, cb, path + '.__closure__', seen)
+        return deep_eq(ca, cb, path + '.__closure__', seen, eq_types)
     if isinstance(a, (type, types.ModuleType, types.BuiltinFunctionType)):
         return None if a is b else f'{path}: {a!r} is not {b!r}'
     if isinstance(a, (list, tuple)):
         if len(a) != len(b):
             return f'{path}: len {len(a)} != {len(b)}'
         for i, (x, y) in enumerate(zip(a, b)):
-            r = deep_eq(x, y, f'{path}[{i}]', seen)
+            r = deep_eq(x, y, f'{path}[{i}]', seen, eq_types)
             if r:
                 return r
         return None
@@ -69,13 +78,14 @@ def deep_eq(a: Any, b: Any, path: str = '', seen=None) -> str | None:
         for k, v in a.items():
             if k not in b:
                 return f'{path}: key {k!r} missing'
-            r = deep_eq(v, b[k], f'{path}[{k!r}]', seen)
+            r = deep_eq(v, b[k], f'{path}[{k!r}]', seen, eq_types)
             if r:
                 return r
         return None
     da = getattr(a, '__dict__', None)
     if da is not None:
-        r = deep_eq(dict(da), dict(b.__dict__), path + '.__dict__', seen)
+        r = deep_eq(dict(da), dict(b.__dict__), path + '.__dict__', seen,
+                    eq_types)
         if r:
             return r
     slots = []
@@ -85,7 +95,8 @@ def deep_eq(a: Any, b: Any, path: str = '', seen=None) -> str | None:
         if hasattr(a, s) != hasattr(b, s):
             return f'{path}.{s}: presence'
         if hasattr(a, s):
-            r = deep_eq(getattr(a, s), getattr(b, s), f'{path}.{s}', seen)
+            r = deep_eq(getattr(a, s), getattr(b, s), f'{path}.{s}', seen,
+                            eq_types)
             if r:
                 return r
     if da is None and not slots:
